@@ -26,6 +26,9 @@ META = {
 }
 
 
+ENGINE_MODS = {"casadi": "sym_metanet.engines.casadi", "numpy": "sym_metanet.engines.numpy"}
+
+
 class SelWorld(PrimWorld):
     def __init__(self, prog):
         super().__init__(False)
@@ -49,12 +52,19 @@ class SelWorld(PrimWorld):
 
     def call_ext(self, it, name, args, kwargs, node):
         if name.endswith("import_module"):
+            short_ = {v: k for k, v in ENGINE_MODS.items()}.get(args[0])
+            if short_ in getattr(self, "unimportable", ()):
+                raise Raised("ImportError", node, it.stack[-1].fi if it.stack else None, f"No module named {args[0]}")
             return ExtMod(args[0])
+        if name == "warnings.warn":
+            it.event("warning", node, f"warning issued: {args[0]!r}")
+            return None
         return NotImplemented
 
     def construct(self, it, cv, args, kwargs, node):
         if cv.fq in ENGINE_CLS.values():
             o = Obj(cv.fq, f"new-{cv.fq.split('.')[-1]}", kind="engine")
+            o.attrs["__ctor__"] = (tuple(args), dict(kwargs))
             self.created.append(o)
             return o
         cname = cv.fq.split(":")[1]
@@ -128,6 +138,50 @@ def run(rep: Report) -> None:
         scenario(f"use({bad_name!r}) raises EngineNotFoundError and leaves the selection unchanged",
                  lambda w, bad_name=bad_name: bad_name, exp_bad2)
 
+    # sequences of selections: each selection stands on its own
+    def sequence(label, steps, expect, key):
+        w = SelWorld(prog)
+        it = Interp(prog, w)
+        outcomes = []
+        for arg, a, kw in steps:
+            try:
+                outcomes.append(("return", it.call_function(FuncV(use), [arg(w)] + list(a), dict(kw))))
+            except Raised as e:
+                outcomes.append(("raise", e))
+        cur = it.call_function(FuncV(gce), [], {})
+        ok, why = expect(w, outcomes, cur)
+        rep.check(ok, "selection", label, where, why, key=f"seq|{key}")
+
+    def exp_second_fresh(w, outs, cur):
+        ok = (len(w.created) == 2 and outs[1][0] == "return" and outs[1][1] is w.created[1] and cur is w.created[1]
+              and w.created[1].cls == ENGINE_CLS["casadi"] and w.created[1].attrs["__ctor__"] == ((), {}))
+        return ok, (f"created {[(c.cls.split('.')[-1], c.attrs['__ctor__']) for c in w.created]}, current {cur!r}: the "
+                    "second selection must build a new engine with the default configuration")
+    sequence("use('casadi', sym_type='MX') then use('casadi'): a new default engine is built and selected",
+             [(lambda w: "casadi", [], {"sym_type": "MX"}), (lambda w: "casadi", [], {})], exp_second_fresh, "name-name")
+    sequence("use('casadi', 'MX') then use('casadi'): a new default engine is built and selected",
+             [(lambda w: "casadi", ["MX"], {}), (lambda w: "casadi", [], {})], exp_second_fresh, "name-pos-name")
+
+    def exp_other(w, outs, cur):
+        ok = (len(w.created) == 2 and cur is w.created[1] and w.created[1].cls == ENGINE_CLS["numpy"]
+              and outs[1][0] == "return" and outs[1][1] is w.created[1])
+        return ok, f"after use('casadi'); use('numpy'): created {[c.cls for c in w.created]}, current {cur!r}"
+    sequence("use('casadi') then use('numpy') selects a NumPy engine",
+             [(lambda w: "casadi", [], {}), (lambda w: "numpy", [], {})], exp_other, "casadi-numpy")
+
+    def exp_inst_then_bad(w, outs, cur):
+        ok = (outs[0][0] == "return" and outs[1][0] == "raise"
+              and outs[1][1].exc.split(".")[-1] == "EngineNotFoundError" and cur is w.inst and len(w.stores) == 1)
+        return ok, f"after use(instance); use('nope'): outcomes {[o[0] for o in outs]}, current {cur!r}"
+    sequence("use(instance) then use('nope'): refused, the instance stays selected",
+             [(mk_inst, [], {}), (lambda w: "nope", [], {})], exp_inst_then_bad, "inst-bad")
+
+    def exp_name_then_inst(w, outs, cur):
+        ok = outs[1][0] == "return" and outs[1][1] is w.inst and cur is w.inst and len(w.created) == 1
+        return ok, f"after use('numpy'); use(instance): current {cur!r}, created {len(w.created)}"
+    sequence("use('numpy') then use(instance): the instance is selected",
+             [(lambda w: "numpy", [], {}), (mk_inst, [], {})], exp_name_then_inst, "name-inst")
+
     # what a caller does with the dict get_available_engines() handed out is the caller's business
     gae = prog.function("sym_metanet.engines.core", "get_available_engines")
 
@@ -152,6 +206,64 @@ def run(rep: Report) -> None:
                  lambda w, name=name: name, exp_name2, prelude=emptied)
     scenario("use('no-such-engine') after a caller added that key to the dict returned by get_available_engines()",
              lambda w: "no-such-engine", exp_bad, prelude=extended)
+
+    # ---------------------------------------- (a') the selection made when the package is imported
+    # The module-level statements of sym_metanet/__init__.py that choose the default engine are
+    # interpreted: the first engine of get_available_engines() whose module can be imported
+    # is selected (once), a warning is issued only if none can.
+    import ast as _ast
+
+    from ..front import FunctionInfo
+
+    pkg = prog.module("sym_metanet")
+    body = [st for st in pkg.tree.body
+            if isinstance(st, (_ast.For, _ast.If, _ast.While, _ast.Try))
+            or (isinstance(st, _ast.Assign) and not any(isinstance(t, _ast.Name) and t.id.startswith("__")
+                                                        for t in st.targets))]
+    has_loop = any(isinstance(st, (_ast.For, _ast.While)) for st in body)
+    rep.floor("module-level selection statements in sym_metanet/__init__.py", len(body), 1)
+    order = None
+    try:
+        w0 = SelWorld(prog)
+        order = list(Interp(prog, w0).call_function(FuncV(gae), [], {}))
+    except Raised:
+        order = None
+    if order is None or not has_loop:
+        rep.undecided("import-selection", "sym_metanet/__init__.py", pkg.relpath,
+                      "cannot find the engine-selection loop / the available engines")
+    else:
+        fn_node = _ast.FunctionDef(name="<import sym_metanet>", args=_ast.arguments(
+            posonlyargs=[], args=[], kwonlyargs=[], kw_defaults=[], defaults=[]), body=body, decorator_list=[],
+            lineno=1, col_offset=0)
+        _ast.fix_missing_locations(fn_node)
+        fi0 = FunctionInfo("sym_metanet", "<import sym_metanet>", fn_node)
+        for missing in ([], order[:1], list(order)):
+            w = SelWorld(prog)
+            w.unimportable = set(missing)
+            w.current = None
+            it = Interp(prog, w)
+            label = ("import sym_metanet" + (f" when {', '.join(missing)} cannot be imported" if missing else ""))
+            try:
+                it.call_function(FuncV(fi0), [], {})
+                outcome = None
+            except Raised as e:
+                outcome = e
+            expect = next((n for n in order if n not in missing), None)
+            warned = [e for e in it.events if e.kind == "warning"]
+            if outcome is not None:
+                rep.refuted("import-selection", label, pkg.relpath, f"importing the package raises {outcome.exc}: {outcome.msg}",
+                            key=f"import|raise|{len(missing)}")
+            elif expect is None:
+                rep.check(w.current is None and not w.stores and bool(warned), "import-selection", label, pkg.relpath,
+                          f"no engine can be imported: selection {w.current!r}, warnings {len(warned)}",
+                          key="import|none")
+            else:
+                ok = (len(w.created) == 1 and w.current is w.created[0] and w.created[0].cls == ENGINE_CLS[expect]
+                      and len(w.stores) == 1 and not warned)
+                rep.check(ok, "import-selection", label, pkg.relpath,
+                          f"expected the first importable engine `{expect}` to be selected once, silently: created "
+                          f"{[c.cls.split('.')[-1] for c in w.created]}, {len(w.stores)} selection store(s), "
+                          f"{len(warned)} warning(s), current {w.current!r}", key=f"import|{expect}")
 
     # -------------------------------------------------------- (b) forwarding
     cks = wire_results(rep, "base") + wire_results(rep, "flags", impls=("casadi",))
